@@ -878,7 +878,9 @@ def apiIncall (a : Acc) (b : Nat) (r : String) (changed users : List (String × 
   match a.h.rooms b r with
   | none => a
   | some rm =>
-    let ic := cs.foldl (fun ic u => if u.inCall % 2 = 1 then (if ic.contains u.sid then ic else ic ++ [u.sid]) else removeL ic u.sid) rm.inCall
+    -- only members of the room can be in its call (fix for C07)
+    let csm := if Generated.Hub.inCallMembersOnly then cs.filter (fun u => rm.members.contains u.sid) else cs
+    let ic := csm.foldl (fun ic u => if u.inCall % 2 = 1 then (if ic.contains u.sid then ic else ic ++ [u.sid]) else removeL ic u.sid) rm.inCall
     let rm1 : Room := { rm with users := us, inCall := ic }
     let a1 : Acc := { a with h := setRoom a.h b r (some rm1) }
     -- recipients see changed entries merged into the users list (ClientSession.filterMessage)
